@@ -133,6 +133,7 @@ func PodFromCoreObject(p *corev1.Pod) (*Pod, error) {
 		if *ownerRef.Controller {
 			if addOwner := addPodOwner(&ownerRef, pr); addOwner {
 				pr.Owner.Variant = variantFromLabelsMap(p.Labels)
+				pr.Owner.Variant += variantFromOwnerKindAndPorts(pr)
 			}
 			break
 		}
@@ -250,6 +251,7 @@ func PodsFromWorkloadObject(workload interface{}, kind string) ([]*Pod, error) {
 			pod.Ports = append(pod.Ports, podTemplate.Spec.Containers[i].Ports...)
 		}
 		pod.Owner.Variant = variantFromLabelsMap(podTemplate.Labels)
+		pod.Owner.Variant += variantFromOwnerKindAndPorts(pod)
 		res[index-1] = pod
 	}
 	return res, nil
@@ -263,6 +265,12 @@ func namespacedName(pod *corev1.Pod) string {
 // variantFromLabelsMap returns a unique hash key from given labels map
 func variantFromLabelsMap(labels map[string]string) string {
 	return hex.EncodeToString(sha1.New().Sum([]byte(fmt.Sprintf("%v", labels)))) //nolint:gosec // Non-crypto use
+}
+
+// variantFromOwnerKindAndPorts : results cached for one pod of an owner are valid for another pod of an owner with that name
+// only if, besides the labels, the owner kind and the container ports (what a named port resolves to) are the same
+func variantFromOwnerKindAndPorts(pod *Pod) string {
+	return hex.EncodeToString([]byte(fmt.Sprintf("%s %v", pod.Owner.Kind, pod.Ports)))
 }
 
 func getFakePodIP() string {
